@@ -13,14 +13,23 @@ package filtering
 // multi-level wildcards over a larger name universe; table, query and
 // projected result are logged for specs/TraceRewrites.tla.
 //
+// Histories (TestZZVerifC06History, TestZZVerifC06HistTrace): ONE filter lives
+// on while its table is edited through the real HTTP handlers (add, delete,
+// update in place); after every edit every query is asked again.  Direction A
+// walks the edges emitted by the edit machine of Rewrites.tla, direction B
+// logs random edit sequences on larger tables for TraceRewrites.tla.
+//
 // Every call of the code under test runs under a watchdog: a table whose
 // queries do not finish is re-run query by query with a longer bound, and only
 // a query that exceeds that bound too is reported as non-termination.
 
 import (
+	"bytes"
 	"encoding/json"
 	"fmt"
 	"math/rand"
+	"net/http"
+	"net/http/httptest"
 	"net/netip"
 	"sort"
 	"strings"
@@ -40,6 +49,11 @@ type zzC06Entry struct {
 	K  string   `json:"k"`
 	IP string   `json:"ip"`
 	T  []string `json:"t"`
+	// MC: the answer (a canonical name) is written with every label in
+	// another letter case than the lower-case form.
+	MC bool `json:"mc"`
+	// DS is the spelling variant of the pattern (normalised by the code).
+	DS int `json:"ds,omitempty"`
 }
 
 // zzC06Out is an abstract outcome.
@@ -62,6 +76,9 @@ type zzC06Vec struct {
 	Tab     []zzC06Entry
 	Ordered bool
 	Verd    map[string]*zzC06Verdict // key: name "|" qtype
+	// VerdC are the additional outcomes when the CNAME answers are written
+	// in another letter case (nil: the table has no CNAME entry).
+	VerdC map[string]*zzC06Verdict
 }
 
 type zzC06Header struct {
@@ -73,6 +90,7 @@ type zzC06RawVec struct {
 	Hdr int               `json:"hdr"`
 	T   []json.RawMessage `json:"t"`
 	V   []json.RawMessage `json:"v"`
+	VC  []json.RawMessage `json:"vc"`
 	O   int               `json:"o"`
 }
 
@@ -89,7 +107,7 @@ func zzC06Decode(hdr *zzC06Header, raw *zzC06RawVec) (v *zzC06Vec, err error) {
 		return hdr.Names[i-1]
 	}
 
-	v = &zzC06Vec{Ordered: raw.O == 1, Verd: map[string]*zzC06Verdict{}}
+	v = &zzC06Vec{Ordered: raw.O == 1}
 	for _, rt := range raw.T {
 		var tup []any
 		if err = json.Unmarshal(rt, &tup); err != nil || len(tup) != 5 {
@@ -105,7 +123,25 @@ func zzC06Decode(hdr *zzC06Header, raw *zzC06RawVec) (v *zzC06Vec, err error) {
 		})
 	}
 
-	for _, rv := range raw.V {
+	if v.Verd, err = zzC06DecodeVerdicts(name, raw.V); err != nil {
+		return nil, err
+	}
+
+	if len(raw.VC) > 0 {
+		if v.VerdC, err = zzC06DecodeVerdicts(name, raw.VC); err != nil {
+			return nil, err
+		}
+	}
+
+	return v, nil
+}
+
+func zzC06DecodeVerdicts(
+	name func(i int) (n []string),
+	raws []json.RawMessage,
+) (m map[string]*zzC06Verdict, err error) {
+	m = map[string]*zzC06Verdict{}
+	for _, rv := range raws {
 		var tup []json.RawMessage
 		if err = json.Unmarshal(rv, &tup); err != nil || len(tup) != 3 {
 			return nil, fmt.Errorf("bad verdict %s: %v", rv, err)
@@ -133,10 +169,10 @@ func zzC06Decode(hdr *zzC06Header, raw *zzC06RawVec) (v *zzC06Vec, err error) {
 			vd.Outs = append(vd.Outs, out)
 		}
 
-		v.Verd[zzC06Key(vd.H, qt)] = vd
+		m[zzC06Key(vd.H, qt)] = vd
 	}
 
-	return v, nil
+	return m, nil
 }
 
 var zzC06PassOnly = []zzC06Out{{R: "pass", Canon: []string{}, IPs: []string{}, Up: true}}
@@ -201,10 +237,28 @@ func (c *zzC06Conc) abs(a netip.Addr) (s string) {
 	return a.String()
 }
 
+// zzC06OtherCase writes a name so that every label differs in case from its
+// lower-case form (every label of the harness's names starts with a letter or
+// is "*"): all upper case, or the first letter of every label.
+func zzC06OtherCase(name string, variant int) (s string) {
+	if variant%2 == 0 {
+		return strings.ToUpper(name)
+	}
+
+	ls := strings.Split(name, ".")
+	for i, l := range ls {
+		if l != "" {
+			ls[i] = strings.ToUpper(l[:1]) + l[1:]
+		}
+	}
+
+	return strings.Join(ls, ".")
+}
+
 // zzC06Rewrite renders one entry the way it is written in the configuration
-// file: lower-case pattern, answer text.
+// file or sent to the API: pattern (in spelling variant e.DS), answer text.
 func (c *zzC06Conc) rewrite(e *zzC06Entry) (rw *LegacyRewrite) {
-	dom := zzC06Name(e.N)
+	dom := zzC06Spell(zzC06Name(e.N), e.DS)
 	if e.W {
 		dom = "*." + dom
 	}
@@ -217,6 +271,9 @@ func (c *zzC06Conc) rewrite(e *zzC06Entry) (rw *LegacyRewrite) {
 		ans = e.K
 	default:
 		ans = zzC06Name(e.T)
+		if e.MC {
+			ans = zzC06OtherCase(ans, len(e.T)+len(e.N)+e.DS)
+		}
 	}
 
 	return &LegacyRewrite{Domain: dom, Answer: ans}
@@ -261,7 +318,8 @@ func (c *zzC06Conc) project(res *Result, err error) (g zzC06Got) {
 	switch res.Reason {
 	case Rewritten:
 		g.R = "rw"
-		g.Canon = res.CanonName
+		// Names are compared case-insensitively.
+		g.Canon = strings.ToLower(res.CanonName)
 		seen := map[string]bool{}
 		for _, ip := range res.IPList {
 			a := c.abs(ip)
@@ -451,12 +509,32 @@ func (r *zzC06Runner) concreteTable(tab []zzC06Entry, order []int) (lines []stri
 	return lines
 }
 
-func zzC06Wanted(v *zzC06Vec, q zzC06Query) (outs []zzC06Out) {
-	if vd, ok := v.Verd[zzC06Key(q.h, q.qt)]; ok {
-		return vd.Outs
+func zzC06Wanted(v *zzC06Vec, q zzC06Query, cased bool) (outs []zzC06Out) {
+	vd, ok := v.Verd[zzC06Key(q.h, q.qt)]
+	if !ok {
+		return zzC06PassOnly
 	}
 
-	return zzC06PassOnly
+	outs = vd.Outs
+	if cased {
+		if vc, okc := v.VerdC[zzC06Key(q.h, q.qt)]; okc {
+			outs = append(append([]zzC06Out{}, outs...), vc.Outs...)
+		}
+	}
+
+	return outs
+}
+
+// zzC06CaseVariant is the table with every CNAME answer in another letter
+// case and the patterns in seeded spellings.
+func zzC06CaseVariant(tab []zzC06Entry, idx int) (ct []zzC06Entry) {
+	ct = append([]zzC06Entry{}, tab...)
+	for i := range ct {
+		ct[i].DS = idx + i
+		ct[i].MC = ct[i].K == "cname"
+	}
+
+	return ct
 }
 
 // table replays one vector in every ordering; qs are the queries of the
@@ -464,7 +542,25 @@ func zzC06Wanted(v *zzC06Vec, q zzC06Query) (outs []zzC06Out) {
 func (r *zzC06Runner) table(v *zzC06Vec, idx int, qs []zzC06Query) {
 	perms := zzC06Perms(v.Tab, v.Ordered)
 	nev := 0
-	for pi, order := range perms {
+	npass := len(perms)
+	if v.VerdC != nil {
+		// One more pass: the table as given, CNAME answers in another case.
+		npass++
+	}
+
+	for pi := 0; pi < npass; pi++ {
+		tab, cased := v.Tab, pi >= len(perms)
+		var order []int
+		if cased {
+			tab = zzC06CaseVariant(v.Tab, idx)
+			order = make([]int, len(tab))
+			for i := range order {
+				order[i] = i
+			}
+		} else {
+			order = perms[pi]
+		}
+
 		got := make([]zzC06Got, len(qs))
 		spell := make([]int, len(qs))
 		for i := range qs {
@@ -476,7 +572,7 @@ func (r *zzC06Runner) table(v *zzC06Vec, idx int, qs []zzC06Query) {
 		res := make(chan []zzC06Got, 1)
 		fin := zzC06Watch(5*time.Second, func() {
 			mine := make([]zzC06Got, len(qs))
-			d, err := r.conc.filter(r.dataDir, v.Tab, order)
+			d, err := r.conc.filter(r.dataDir, tab, order)
 			if err != nil {
 				for i := range mine {
 					mine[i] = zzC06Got{R: "error", Err: err.Error(), IPs: []string{}}
@@ -499,7 +595,7 @@ func (r *zzC06Runner) table(v *zzC06Vec, idx int, qs []zzC06Query) {
 
 		hung := false
 		for i, q := range qs {
-			want := zzC06Wanted(v, q)
+			want := zzC06Wanted(v, q, cased)
 			nev++
 			if fin && zzC06Admissible(want, &got[i]) {
 				continue
@@ -512,9 +608,9 @@ func (r *zzC06Runner) table(v *zzC06Vec, idx int, qs []zzC06Query) {
 			}
 
 			// Reproduce alone, on a fresh filter, with a long bound.
-			g2, conc, fin2 := r.one(v.Tab, order, q, spell[i], 20*time.Second)
+			g2, conc, fin2 := r.one(tab, order, q, spell[i], 20*time.Second)
 			rec := map[string]any{
-				"tab": v.Tab, "order": order, "table": r.concreteTable(v.Tab, order),
+				"tab": tab, "order": order, "table": r.concreteTable(tab, order), "cased": cased,
 				"h": q.h, "qt": q.qt, "query": conc, "want": want,
 			}
 			switch {
@@ -554,7 +650,7 @@ func (r *zzC06Runner) table(v *zzC06Vec, idx int, qs []zzC06Query) {
 
 	r.count(func() {
 		r.tables++
-		r.orders += len(perms)
+		r.orders += npass
 		r.evals += nev
 	})
 }
@@ -687,6 +783,7 @@ func zzC06BTable(rng *rand.Rand) (tab []zzC06Entry, pool [][]string) {
 
 		e := &tab[len(tab)-1]
 		e.T = []string{}
+		e.DS = rng.Intn(3)
 		switch k := rng.Intn(20); {
 		case k < 5:
 			e.K, e.IP = "ip4", zzC06BPick(rng, zzC06BV4)
@@ -711,6 +808,9 @@ func zzC06BTable(rng *rand.Rand) (tab []zzC06Entry, pool [][]string) {
 		default:
 			e.K, e.T = "cname", zzC06BName(rng)
 		}
+
+		// A quarter of the canonical names are written in another case.
+		e.MC = e.K == "cname" && rng.Intn(4) == 0
 	}
 
 	return tab, pool
@@ -938,4 +1038,741 @@ func TestZZVerifC06Probe(t *testing.T) {
 			"i": i, "admissible": zzC06Admissible(want, &got), "hang": false, "got": got, "expected": exp,
 		})
 	})
+}
+
+// ------------------------------------------------------------------ histories
+
+// zzC06Live is one filter that lives on while its table is edited through the
+// HTTP handlers the filter registers itself.
+type zzC06Live struct {
+	conc *zzC06Conc
+	d    *DNSFilter
+	h    map[string]http.HandlerFunc
+}
+
+func zzC06NewLive(conc *zzC06Conc, dataDir string) (l *zzC06Live, err error) {
+	l = &zzC06Live{conc: conc, h: map[string]http.HandlerFunc{}}
+	conf := &Config{
+		DataDir:        dataDir,
+		ConfigModified: func() {},
+		HTTPRegister: func(method, url string, h http.HandlerFunc) {
+			l.h[method+" "+url] = h
+		},
+	}
+
+	if l.d, err = New(conf, nil); err != nil {
+		return nil, err
+	}
+
+	l.d.RegisterFilteringHandlers()
+	for _, k := range []string{
+		"POST /control/rewrite/add", "POST /control/rewrite/delete", "PUT /control/rewrite/update",
+		"GET /control/rewrite/list",
+	} {
+		if l.h[k] == nil {
+			return nil, fmt.Errorf("handler %q is not registered", k)
+		}
+	}
+
+	return l, nil
+}
+
+func (l *zzC06Live) call(key string, body any) (code int, resp string) {
+	b, _ := json.Marshal(body)
+	parts := strings.SplitN(key, " ", 2)
+	r := httptest.NewRequest(parts[0], parts[1], bytes.NewReader(b))
+	r.Header.Set("Content-Type", "application/json")
+	w := httptest.NewRecorder()
+	l.h[key](w, r)
+
+	return w.Code, w.Body.String()
+}
+
+type zzC06RWJSON struct {
+	Domain string `json:"domain"`
+	Answer string `json:"answer"`
+}
+
+func (l *zzC06Live) rw(e *zzC06Entry) (j zzC06RWJSON) {
+	rw := l.conc.rewrite(e)
+
+	return zzC06RWJSON{Domain: rw.Domain, Answer: rw.Answer}
+}
+
+// zzC06Step is one edit.
+type zzC06Step struct {
+	Act string     `json:"act"`
+	A   zzC06Entry `json:"a"`
+	B   zzC06Entry `json:"b"`
+	// QS are the queries asked after the step (probe input only).
+	QS [][]json.RawMessage `json:"qs,omitempty"`
+}
+
+func (st *zzC06Step) text(l *zzC06Live) (s string) {
+	a := l.rw(&st.A)
+	s = st.Act + " " + a.Domain + " -> " + a.Answer
+	if st.Act == "upd" {
+		b := l.rw(&st.B)
+		s += " => " + b.Domain + " -> " + b.Answer
+	}
+
+	return s
+}
+
+// edit performs the step through the API; ok is whether the call succeeded.
+func (l *zzC06Live) edit(st *zzC06Step) (ok bool, err error) {
+	var code int
+	var body string
+	switch st.Act {
+	case "add":
+		code, body = l.call("POST /control/rewrite/add", l.rw(&st.A))
+	case "del":
+		code, body = l.call("POST /control/rewrite/delete", l.rw(&st.A))
+	case "upd":
+		code, body = l.call("PUT /control/rewrite/update", map[string]any{"target": l.rw(&st.A), "update": l.rw(&st.B)})
+	default:
+		return false, fmt.Errorf("bad act %q", st.Act)
+	}
+
+	switch code {
+	case http.StatusOK:
+		return true, nil
+	case http.StatusBadRequest:
+		return false, nil
+	default:
+		return false, fmt.Errorf("%s: unexpected status %d %s", st.Act, code, body)
+	}
+}
+
+func (l *zzC06Live) list() (rws []zzC06RWJSON, err error) {
+	code, body := l.call("GET /control/rewrite/list", nil)
+	if code != http.StatusOK {
+		return nil, fmt.Errorf("list: %d %s", code, body)
+	}
+
+	err = json.Unmarshal([]byte(body), &rws)
+
+	return rws, err
+}
+
+// sameList: the API lists exactly tab (patterns normalised to lower case).
+func (l *zzC06Live) sameList(tab []zzC06Entry) (err error) {
+	got, err := l.list()
+	if err != nil {
+		return err
+	} else if len(got) != len(tab) {
+		return fmt.Errorf("list has %d entries, want %d", len(got), len(tab))
+	}
+
+	for i := range tab {
+		w := l.rw(&tab[i])
+		if got[i].Domain != strings.ToLower(w.Domain) || got[i].Answer != w.Answer {
+			return fmt.Errorf("list differs at %d: %v, want %v", i, got[i], w)
+		}
+	}
+
+	return nil
+}
+
+// ask evaluates all queries on the live filter under the watchdog.
+func (l *zzC06Live) ask(qs []zzC06Query, base int, bound time.Duration) (got []zzC06Got, fin bool) {
+	res := make(chan []zzC06Got, 1)
+	fin = zzC06Watch(bound, func() {
+		mine := make([]zzC06Got, len(qs))
+		for i, q := range qs {
+			cres, cerr := l.d.CheckHost(zzC06Spell(zzC06Name(q.h), base+i), zzC06QTypes[q.qt], zzC06Setts)
+			mine[i] = l.conc.project(&cres, cerr)
+		}
+		res <- mine
+	})
+	if fin {
+		got = <-res
+	}
+
+	return got, fin
+}
+
+type zzC06HistLine struct {
+	Hdr int               `json:"hdr"`
+	K   string            `json:"k"`
+	ID  int               `json:"id"`
+	T   []json.RawMessage `json:"t"`
+	V   []json.RawMessage `json:"v"`
+	Act string            `json:"act"`
+	A   json.RawMessage   `json:"a"`
+	B   json.RawMessage   `json:"b"`
+	OK  bool              `json:"ok"`
+	Dst int               `json:"dst"`
+}
+
+func zzC06DecodeEntry(hdr *zzC06Header, raw json.RawMessage) (e zzC06Entry, err error) {
+	var tup []any
+	if err = json.Unmarshal(raw, &tup); err != nil {
+		return e, err
+	} else if len(tup) == 0 {
+		return zzC06Entry{N: []string{}, T: []string{}}, nil
+	} else if len(tup) != 5 {
+		return e, fmt.Errorf("bad entry %s", raw)
+	}
+
+	name := func(i int) (n []string) {
+		if i <= 0 || i > len(hdr.Names) {
+			return []string{}
+		}
+
+		return hdr.Names[i-1]
+	}
+
+	return zzC06Entry{
+		W: tup[0].(float64) == 1, N: name(int(tup[1].(float64))), K: tup[2].(string), IP: tup[3].(string),
+		T: name(int(tup[4].(float64))),
+	}, nil
+}
+
+func zzC06QueryPairs(qs []zzC06Query) (ps [][]any) {
+	for _, q := range qs {
+		ps = append(ps, []any{q.h, q.qt})
+	}
+
+	return ps
+}
+
+// zzC06Rehearse replays a history (edits with all queries after each) on a
+// fresh filter and evaluates the last query alone: the isolation run for a
+// disagreement that may depend on the history.
+func zzC06Rehearse(
+	conc *zzC06Conc,
+	dataDir string,
+	hist []zzC06Step,
+	qs []zzC06Query,
+	q zzC06Query,
+	spell int,
+) (g zzC06Got, conc2 string, fin bool, err error) {
+	l, err := zzC06NewLive(conc, dataDir)
+	if err != nil {
+		return g, "", true, err
+	}
+
+	conc2 = zzC06Spell(zzC06Name(q.h), spell)
+	var res zzC06Got
+	fin = zzC06Watch(30*time.Second, func() {
+		for i := range hist {
+			if _, eerr := l.edit(&hist[i]); eerr != nil {
+				res = zzC06Got{R: "error", Err: eerr.Error(), IPs: []string{}}
+
+				return
+			}
+
+			if i < len(hist)-1 {
+				for j, x := range qs {
+					_, _ = l.d.CheckHost(zzC06Spell(zzC06Name(x.h), i+j), zzC06QTypes[x.qt], zzC06Setts)
+				}
+			}
+		}
+
+		cres, cerr := l.d.CheckHost(conc2, zzC06QTypes[q.qt], zzC06Setts)
+		res = conc.project(&cres, cerr)
+	})
+	if fin {
+		g = res
+		l.d.Close()
+	}
+
+	return g, conc2, fin, nil
+}
+
+// TestZZVerifC06History is direction A for histories: the walk computed by the
+// orchestrator over the edges of the edit machine (Rewrites.tla, Mode "hist")
+// is performed on one live filter; after every edit the listed table must be
+// the destination table and every query must be admissible for it.
+func TestZZVerifC06History(t *testing.T) {
+	w := zzNewWriter(t, "VERIF_OUT")
+	defer w.close()
+
+	conc := zzC06NewConc(zzSeed())
+	dataDir := t.TempDir()
+
+	var hdr *zzC06Header
+	var qs []zzC06Query
+	states := map[int]*zzC06Vec{}
+	var l *zzC06Live
+	var hist []zzC06Step
+	steps, resets, evals, bad, hangs, flaky, setup := 0, 0, 0, 0, 0, 0, 0
+	stop := false
+	zzReadNDJSON(t, "VERIF_IN", func(line []byte) {
+		if stop {
+			return
+		}
+
+		ln := &zzC06HistLine{}
+		if err := json.Unmarshal(line, ln); err != nil {
+			t.Fatalf("bad line: %v", err)
+		}
+
+		switch {
+		case ln.Hdr == 1:
+			hdr = &zzC06Header{}
+			if err := json.Unmarshal(line, hdr); err != nil {
+				t.Fatalf("bad header: %v", err)
+			}
+
+			for _, qi := range hdr.QNames {
+				for _, qt := range []string{"A", "AAAA", "TXT"} {
+					qs = append(qs, zzC06Query{h: hdr.Names[qi-1], qt: qt})
+				}
+			}
+
+			return
+		case ln.K == "state":
+			v, err := zzC06Decode(hdr, &zzC06RawVec{T: ln.T, V: ln.V, O: 1})
+			if err != nil {
+				t.Fatalf("decoding state: %v", err)
+			}
+
+			states[ln.ID] = v
+
+			return
+		case ln.K == "reset":
+			if l != nil {
+				l.d.Close()
+			}
+
+			var err error
+			if l, err = zzC06NewLive(conc, dataDir); err != nil {
+				t.Fatalf("new filter: %v", err)
+			}
+
+			hist = nil
+			resets++
+
+			return
+		case ln.K != "step":
+			t.Fatalf("bad line kind %q", ln.K)
+		}
+
+		st := zzC06Step{Act: ln.Act}
+		var err error
+		if st.A, err = zzC06DecodeEntry(hdr, ln.A); err != nil {
+			t.Fatalf("decoding a: %v", err)
+		} else if st.B, err = zzC06DecodeEntry(hdr, ln.B); err != nil {
+			t.Fatalf("decoding b: %v", err)
+		}
+
+		dst := states[ln.Dst]
+		if dst == nil || l == nil {
+			t.Fatalf("step before its state or before a reset")
+		}
+
+		steps++
+		hist = append(hist, st)
+		ok, err := l.edit(&st)
+		if err == nil && ok != ln.OK {
+			err = fmt.Errorf("%s: succeeded=%v, the model says %v", st.text(l), ok, ln.OK)
+		}
+
+		if err == nil {
+			err = l.sameList(dst.Tab)
+		}
+
+		if err != nil {
+			// The model of the API is not what the code does: not a verdict
+			// about rewrites.
+			setup++
+			stop = true
+			w.put(map[string]any{"kind": "setup", "err": err.Error(), "step": st.text(l)})
+
+			return
+		}
+
+		got, fin := l.ask(qs, steps, 5*time.Second)
+		for i, q := range qs {
+			want := zzC06Wanted(dst, q, false)
+			evals++
+			if fin && zzC06Admissible(want, &got[i]) {
+				continue
+			}
+
+			// Reproduce: the same history on a fresh filter, this query last.
+			g2, name, fin2, rerr := zzC06Rehearse(conc, dataDir, hist, qs, q, steps+i)
+			if rerr != nil {
+				t.Fatalf("rehearsing: %v", rerr)
+			}
+
+			texts := []string{}
+			for j := range hist {
+				texts = append(texts, hist[j].text(l))
+			}
+
+			rec := map[string]any{
+				"steps": hist, "history": texts, "qs": zzC06QueryPairs(qs), "h": q.h, "qt": q.qt, "query": name,
+				"want": want, "table": l.concreteTab(dst.Tab),
+			}
+			switch {
+			case !fin2:
+				hangs++
+				rec["kind"], rec["got"] = "hang", "no result within 30s"
+			case zzC06Admissible(want, &g2):
+				if !fin {
+					continue
+				}
+
+				flaky++
+				rec["kind"], rec["got"], rec["first"] = "flaky", g2, got[i]
+			default:
+				bad++
+				rec["kind"], rec["got"] = "bad", g2
+			}
+
+			w.put(rec)
+			if !fin2 || bad >= 10 {
+				stop = true
+
+				return
+			}
+		}
+
+		if !fin {
+			// The filter is spinning: it cannot be edited any more.
+			stop = true
+		}
+	})
+
+	w.put(map[string]any{
+		"kind": "summary", "steps": steps, "resets": resets, "evals": evals, "bad": bad, "hangs": hangs,
+		"flaky": flaky, "setup_errors": setup, "aborted": stop,
+	})
+}
+
+func (l *zzC06Live) concreteTab(tab []zzC06Entry) (lines []string) {
+	lines = []string{}
+	for i := range tab {
+		rw := l.rw(&tab[i])
+		lines = append(lines, rw.Domain+" -> "+rw.Answer)
+	}
+
+	return lines
+}
+
+// zzC06HistProbeIn is a history to rehearse and a final query with what is
+// admissible for it.
+type zzC06HistProbeIn struct {
+	Steps  []zzC06Step         `json:"steps"`
+	QS     [][]json.RawMessage `json:"qs"`
+	H      []string            `json:"h"`
+	QT     string              `json:"qt"`
+	Query  string              `json:"query"`
+	Want   []zzC06Out          `json:"want"`
+	Expect []struct {
+		R     string   `json:"r"`
+		Canon []string `json:"canon"`
+		IPs   []string `json:"ips"`
+	} `json:"expect"`
+}
+
+func zzC06PairsToQueries(ps [][]json.RawMessage) (qs []zzC06Query, err error) {
+	for _, p := range ps {
+		q := zzC06Query{}
+		if len(p) != 2 {
+			return nil, fmt.Errorf("bad query pair")
+		} else if err = json.Unmarshal(p[0], &q.h); err != nil {
+			return nil, err
+		} else if err = json.Unmarshal(p[1], &q.qt); err != nil {
+			return nil, err
+		}
+
+		qs = append(qs, q)
+	}
+
+	return qs, nil
+}
+
+// TestZZVerifC06HistProbe rehearses every input line on a fresh filter: the
+// edits, the queries that were asked after each of them, the final query.
+func TestZZVerifC06HistProbe(t *testing.T) {
+	w := zzNewWriter(t, "VERIF_OUT")
+	defer w.close()
+
+	conc := zzC06NewConc(zzSeed())
+	dataDir := t.TempDir()
+	i := 0
+	zzReadNDJSON(t, "VERIF_IN", func(line []byte) {
+		in := &zzC06HistProbeIn{}
+		if err := json.Unmarshal(line, in); err != nil {
+			t.Fatalf("bad probe: %v", err)
+		}
+
+		i++
+		if in.Query == "" {
+			in.Query = zzC06Name(in.H)
+		}
+
+		want := in.Want
+		for _, e := range in.Expect {
+			ips := append([]string{}, e.IPs...)
+			sort.Strings(ips)
+			want = append(want, zzC06Out{R: e.R, Canon: e.Canon, IPs: ips})
+		}
+
+		common, err := zzC06PairsToQueries(in.QS)
+		if err != nil {
+			t.Fatalf("bad probe queries: %v", err)
+		}
+
+		l, err := zzC06NewLive(conc, dataDir)
+		if err != nil {
+			t.Fatalf("new filter: %v", err)
+		}
+
+		var got zzC06Got
+		fin := zzC06Watch(30*time.Second, func() {
+			for j := range in.Steps {
+				st := &in.Steps[j]
+				if _, eerr := l.edit(st); eerr != nil {
+					got = zzC06Got{R: "error", Err: eerr.Error(), IPs: []string{}}
+
+					return
+				}
+
+				qs := common
+				if len(st.QS) > 0 {
+					qs, _ = zzC06PairsToQueries(st.QS)
+				}
+
+				if j < len(in.Steps)-1 {
+					for _, x := range qs {
+						_, _ = l.d.CheckHost(zzC06Name(x.h), zzC06QTypes[x.qt], zzC06Setts)
+					}
+				}
+			}
+
+			res, cerr := l.d.CheckHost(in.Query, zzC06QTypes[in.QT], zzC06Setts)
+			got = conc.project(&res, cerr)
+		})
+		if !fin {
+			w.put(map[string]any{"i": i, "admissible": false, "hang": true, "got": "no result within 30s"})
+
+			return
+		}
+
+		l.d.Close()
+		exp := []map[string]any{}
+		for _, o := range want {
+			exp = append(exp, map[string]any{"r": o.R, "canon": zzC06Name(o.Canon), "ips": o.IPs})
+		}
+
+		w.put(map[string]any{
+			"i": i, "admissible": zzC06Admissible(want, &got), "hang": false, "got": got, "expected": exp,
+		})
+	})
+}
+
+// zzC06Abstract reads an entry back from what the API lists.
+func zzC06Abstract(rw zzC06RWJSON) (e zzC06Entry) {
+	e = zzC06Entry{N: []string{}, T: []string{}}
+	dom := rw.Domain
+	if strings.HasPrefix(dom, "*.") {
+		e.W, dom = true, dom[2:]
+	}
+
+	e.N = strings.Split(dom, ".")
+	switch rw.Answer {
+	case "A", "AAAA":
+		e.K = rw.Answer
+
+		return e
+	}
+
+	if a, err := netip.ParseAddr(rw.Answer); err == nil {
+		e.K, e.IP = "ip6", a.String()
+		if a.Is4() {
+			e.K = "ip4"
+		}
+
+		return e
+	}
+
+	e.K, e.T = "cname", strings.Split(rw.Answer, ".")
+
+	return e
+}
+
+// zzC06BEntry draws one entry over the pool (lower case: histories vary the
+// table, not the spelling).
+func zzC06BEntry(rng *rand.Rand, pool [][]string) (e zzC06Entry) {
+	pick := func() (n []string) { return pool[rng.Intn(len(pool))] }
+	e = zzC06Entry{W: rng.Intn(5) < 2, N: pick(), T: []string{}}
+	switch k := rng.Intn(20); {
+	case k < 6:
+		e.K, e.IP = "ip4", zzC06BPick(rng, zzC06BV4)
+	case k < 9:
+		e.K, e.IP = "ip6", zzC06BPick(rng, zzC06BV6)
+	case k < 10:
+		e.K = "A"
+	case k < 11:
+		e.K = "AAAA"
+	case k < 12:
+		e.K = "cname"
+		if e.W {
+			e.T = append([]string{"*"}, e.N...)
+		} else {
+			e.T = e.N
+		}
+	case k < 18:
+		e.K, e.T = "cname", pick()
+	default:
+		e.K, e.T = "cname", zzC06BSub(rng, pick())
+	}
+
+	return e
+}
+
+// TestZZVerifC06HistTrace is direction B for histories: random edit sequences
+// (add, delete, update in place; existing and absent targets) on one live
+// filter with 8-16 entries; after every edit a dozen queries, half of which
+// were asked before.  Logged: the edit, whether the call succeeded, the table
+// the API lists afterwards, the observations.
+func TestZZVerifC06HistTrace(t *testing.T) {
+	w := zzNewWriter(t, "VERIF_OUT")
+	defer w.close()
+
+	rng := rand.New(rand.NewSource(zzSeed() + 104729))
+	conc := zzC06NewConc(zzSeed())
+	dataDir := t.TempDir()
+	runs, edits := 4, 60
+	if zzGetenv("VERIF_TIER") == "thorough" {
+		runs, edits = 20, 120
+	}
+
+	type query struct {
+		h     []string
+		qt    string
+		spell int
+	}
+
+	for r := 0; r < runs; r++ {
+		l, err := zzC06NewLive(conc, dataDir)
+		if err != nil {
+			t.Fatalf("new filter: %v", err)
+		}
+
+		pool := [][]string{}
+		for i := 0; i < 5; i++ {
+			n := zzC06BName(rng)
+			pool = append(pool, n, zzC06BSub(rng, n))
+		}
+
+		w.put(map[string]any{"lvl": "hist", "ev": "reset", "qs": []any{}, "list": []any{}})
+		var asked []query
+		cur := []zzC06Entry{}
+		for i := 0; i < edits; i++ {
+			st := zzC06Step{A: zzC06BEntry(rng, pool), B: zzC06BEntry(rng, pool)}
+			switch k := rng.Intn(10); {
+			case len(cur) < 8 || k < 3 && len(cur) < 16:
+				st.Act = "add"
+				if len(cur) > 0 && rng.Intn(8) == 0 {
+					st.A = cur[rng.Intn(len(cur))]
+				}
+			case k < 5:
+				st.Act = "del"
+				if rng.Intn(5) > 0 {
+					st.A = cur[rng.Intn(len(cur))]
+				}
+			default:
+				st.Act = "upd"
+				if rng.Intn(8) > 0 {
+					st.A = cur[rng.Intn(len(cur))]
+				}
+
+				if rng.Intn(3) == 0 {
+					// Same pattern, another answer.
+					st.B.W, st.B.N = st.A.W, st.A.N
+					if st.B.K == "cname" && len(st.B.T) > 0 && st.B.T[0] == "*" {
+						st.B.K, st.B.IP, st.B.T = "ip4", zzC06BV4[0], []string{}
+					}
+				}
+			}
+
+			ok, eerr := l.edit(&st)
+			if eerr != nil {
+				t.Fatalf("edit: %v", eerr)
+			}
+
+			rws, lerr := l.list()
+			if lerr != nil {
+				t.Fatalf("list: %v", lerr)
+			}
+
+			cur = cur[:0]
+			for _, rw := range rws {
+				cur = append(cur, zzC06Abstract(rw))
+			}
+
+			qs := []query{}
+			for j := 0; j < 12; j++ {
+				if j < 6 && len(asked) > 0 {
+					qs = append(qs, asked[rng.Intn(len(asked))])
+
+					continue
+				}
+
+				q := query{qt: []string{"A", "AAAA", "TXT"}[rng.Intn(3)], spell: rng.Intn(3)}
+				switch k := rng.Intn(6); {
+				case k < 2:
+					q.h = pool[rng.Intn(len(pool))]
+				case k < 4 && len(cur) > 0:
+					e := cur[rng.Intn(len(cur))]
+					q.h = e.N
+					if e.W {
+						q.h = zzC06BSub(rng, e.N)
+					}
+				case k < 5:
+					q.h = zzC06BSub(rng, pool[rng.Intn(len(pool))])
+				default:
+					q.h = zzC06BName(rng)
+				}
+
+				qs = append(qs, q)
+				asked = append(asked, q)
+				if len(asked) > 60 {
+					asked = asked[1:]
+				}
+			}
+
+			obs := []zzC06BObs{}
+			res := make(chan []zzC06BObs, 1)
+			fin := zzC06Watch(20*time.Second, func() {
+				mine := []zzC06BObs{}
+				for _, q := range qs {
+					name := zzC06Spell(zzC06Name(q.h), q.spell)
+					cres, cerr := l.d.CheckHost(name, zzC06QTypes[q.qt], zzC06Setts)
+					g := conc.project(&cres, cerr)
+					o := zzC06BObs{H: q.h, QT: q.qt, R: g.R, Canon: []string{}, IPs: g.IPs, Query: name}
+					if g.Canon != "" {
+						o.Canon = strings.Split(g.Canon, ".")
+					}
+
+					mine = append(mine, o)
+				}
+				res <- mine
+			})
+			if fin {
+				obs = <-res
+			} else {
+				obs = append(obs, zzC06BObs{
+					H: qs[0].h, QT: qs[0].qt, R: "hang", Canon: []string{}, IPs: []string{},
+					Query: zzC06Name(qs[0].h),
+				})
+			}
+
+			w.put(map[string]any{
+				"lvl": "hist", "ev": st.Act, "a": st.A, "b": st.B, "ok": ok, "list": cur, "qs": obs,
+				"text": st.text(l),
+			})
+			if !fin {
+				return
+			}
+		}
+
+		l.d.Close()
+	}
 }
